@@ -59,6 +59,13 @@ FLAT = {'get_syntactic_behaviours', 'get_lexicon_extension_bases', 'get_lexicon_
 
 def arg_key(v) -> tuple:
     """(name part, z3 parent terms) identifying an argument value."""
+    if type(v).__name__ == 'JoinedTokens':
+        from vc.pyvc.builtins_sym import canonical_map_id
+        toks = v.tokens
+        if isinstance(toks, list):
+            parts = [arg_key(x) for x in toks]
+            return ('join(' + ','.join(p[0] for p in parts) + ')', [t for p in parts for t in p[1]])
+        return (f'join#{canonical_map_id(toks if isinstance(toks, Seq) else toks.as_seq())}', [])
     if isinstance(v, SV):
         terms = [v.z]
         if v.none is not None:
@@ -336,6 +343,9 @@ def build_contracts(stubs: Stubs, under_test, under_spec=None) -> dict:
     # module-level wn.synsets / Wordnet(): results are functions of the arguments
     contracts[core.synsets] = module_query('synsets', ('form', 'pos', 'ili', 'lexicon', 'lang'))
     contracts[core.Wordnet] = fresh_wordnet
+    import wn._util
+    spec_f = z3.Function('specifier', UStr, UStr, UStr)
+    contracts[wn._util.format_lexicon_specifier] = lambda it, a, k, n: SV('str', spec_f(a[0].z, a[1].z))
     contracts[spec_core.SCOPE] = lambda it, args, kwargs, node: it.call(
         core._LexiconElement._get_lexicon_ids, args, kwargs, node)
     return contracts
@@ -442,15 +452,28 @@ def flow_obligations(prop: str, spec_name, cls, method, extra_pos, extra_kw) -> 
     return compare_flows(prop, name, real, spec, [selfv] + list(pos), kw, spec_name)
 
 
-def compare_flows(prop, name, real, spec, args, kw, spec_name=None, skip_specs=()) -> list:
+def compare_flows(prop, name, real, spec, args, kw, spec_name=None, skip_specs=(), extra_contracts=None, pre=(),
+                  compare_self=None) -> list:
     outs = {}
+    snapshots = {}
     for which, fn in (('real', real), ('spec', spec)):
         stubs = Stubs()
         contracts = build_contracts(stubs, real, spec_name)
         for f in skip_specs:
             contracts.pop(f, None)
-        outs[which] = explore(lambda it, fn=fn: it.call_function(fn, list(args), dict(kw)),
-                              contracts=contracts, packages=('wn', 'contracts.spec_core'))
+        if extra_contracts:
+            contracts.update(extra_contracts)
+        if compare_self is not None:
+            compare_self.attrs.clear()
+
+        def runner(it, fn=fn):
+            if compare_self is not None:
+                compare_self.attrs.clear()
+            r = it.call_function(fn, list(args), dict(kw))
+            if compare_self is not None:
+                return dict(compare_self.attrs)      # the object's final state is the result
+            return r
+        outs[which] = explore(runner, contracts=contracts, packages=('wn', 'contracts.spec_core'), pre=pre)
     obs = []
     for r in outs['real']:
         for s in outs['spec']:
@@ -481,7 +504,12 @@ def compare_flows(prop, name, real, spec, args, kw, spec_name=None, skip_specs=(
                                       detail=f'{r.exc.exc_type.__name__} vs {s.exc.exc_type.__name__}', **base))
                 continue
             try:
-                eq = famcmp.value_eq(r.value, s.value)
+                if isinstance(r.value, dict) and isinstance(s.value, dict):
+                    keys = sorted(set(r.value) | set(s.value))
+                    eq = z_and(*[z_bool(famcmp.value_eq(r.value.get(k, famcmp._ABSENT), s.value.get(k, famcmp._ABSENT),
+                                                        k)) for k in keys])
+                else:
+                    eq = famcmp.value_eq(r.value, s.value)
             except famcmp.ShapeMismatch as exc:
                 obs.append(Obligation(f'{name}:flow:result:{pid}', assumptions=pc, goal=z3.BoolVal(False),
                                       detail=f'result has a different shape: {exc}', **base))
@@ -559,6 +587,41 @@ def find_helper_obligations(prop: str) -> list:
                     variant = f'{cls.__name__},form={with_form},lemmatizer={lem},normalizer={norm}'
                     obs += compare_flows(prop, f'wn._core._find_helper[{variant}]', core._find_helper,
                                          spec_core.find_helper, [w, cls, qf, form, pos], kw)
+    return obs
+
+
+def wordnet_init_obligations(prop: str) -> list:
+    """Wordnet.__init__ against the documented selection / expansion rules, for lexicon and lang given or not and
+    expand in {None, '', a specifier}."""
+    import warnings
+    from vc.pyvc.interp import AbstractFn
+    obs = []
+
+    def warn_contract(it, args, kwargs, node):
+        it.ctx.effects.append(Event('call', guard=it.ctx.current_guard(), binders=list(it.ctx.all_binders()),
+                                    node=node, extra={'fn': 'warnings.warn', 'args': {'category': args[1] if len(
+                                        args) > 1 else kwargs.get('category')}}, pc_len=len(it.ctx.pc)))
+        return None
+    for lex_given in (False, True):
+        for lang_given in (False, True):
+            for expand_kind in ('none', 'empty', 'spec'):
+                selfv = SObj(core.Wordnet, name='self')
+                lexicon = mk('str', 'lexicon') if lex_given else None
+                lang = mk('str', 'lang') if lang_given else None
+                expand = {'none': None, 'empty': '', 'spec': mk('str', 'expand')}[expand_kind]
+                kw = {'lang': lang, 'expand': expand, 'normalizer': AbstractFn('normalizer', lambda *a: None),
+                      'lemmatizer': None, 'search_all_forms': mk('bool', 'search_all_forms')}
+                variant = f'lexicon={lex_given},lang={lang_given},expand={expand_kind}'
+                pre = []
+                if lex_given:
+                    pre.append(lexicon.z != LITS.lit(''))
+                if lang_given:
+                    pre.append(lang.z != LITS.lit(''))
+                if expand_kind == 'spec':
+                    pre.append(expand.z != LITS.lit(''))
+                obs += compare_flows(prop, f'wn._core.Wordnet.__init__[{variant}]', core.Wordnet.__init__,
+                                     spec_core.Wordnet_init, [selfv, lexicon], kw,
+                                     extra_contracts={warnings.warn: warn_contract}, pre=pre, compare_self=selfv)
     return obs
 
 
